@@ -41,6 +41,7 @@ type exchange struct {
 	chunks   []int
 	trailers []F
 	gzip     bool
+	keepAlive10 bool // the origin's HTTP/1.0 response says Connection: keep-alive
 	sse      bool
 	seg      int
 	rules    []string // configured --response-header rules
@@ -96,7 +97,7 @@ func chooseExchange(x *explore.X, p string) exchange {
 	st := statuses[x.Choose(p+"status", len(statuses))]
 	e.status, e.reason = st.code, st.reason
 	e.shape = x.Choose(p+"shape", len(resShapes))
-	switch x.Choose(p+"framing", 4) {
+	switch x.Choose(p+"framing", 5) {
 	case 0:
 		e.framing = "cl"
 	case 1:
@@ -106,6 +107,11 @@ func chooseExchange(x *explore.X, p string) exchange {
 	case 3:
 		e.framing = "eof"
 		e.proto = "HTTP/1.0"
+	case 4:
+		// an HTTP/1.0 origin with a persistent connection (Content-Length + Connection: keep-alive)
+		e.framing = "cl"
+		e.proto = "HTTP/1.0"
+		e.keepAlive10 = true
 	}
 	e.size = sizes[x.Choose(p+"size", len(sizes))]
 	if e.framing == "chunked" {
@@ -182,6 +188,9 @@ func (e exchange) response() h1x.Msg {
 		start = fmt.Sprintf("%s %d", e.proto, e.status)
 	}
 	m := h1x.Msg{Start: start, Fields: append([]F{}, resShapes[e.shape].fields...), Framing: e.framing, Chunks: e.chunks, Trailers: e.trailers}
+	if e.keepAlive10 {
+		m.Fields = append(m.Fields, F{"Connection", "keep-alive"})
+	}
 	body := e.plain()
 	if e.gzip {
 		body = gz(body)
@@ -243,7 +252,8 @@ func segments(e exchange) [][]byte {
 }
 
 // expectResponse compares the i-th message the client received with what the origin produced.
-func expectResponse(x *explore.X, e exchange, got httpwire.Msg, handlerMode bool) (announcedClose bool) {
+func expectResponse(x *explore.X, e exchange, got httpwire.Msg, handlerMode bool) (closing int) {
+	announcedClose := false
 	fail := func(sig, format string, a ...any) {
 		head, _ := e.responseWire()
 		x.Failf(sig, "%s\n  request: %s %s conn=%q\n  origin sent head: %q\n  client got head: %q", fmt.Sprintf(format, a...), e.method, e.version, e.connOpt, world.Clip(head), world.Clip(got.Raw[:got.HeadLen]))
@@ -390,11 +400,25 @@ func expectResponse(x *explore.X, e exchange, got httpwire.Msg, handlerMode bool
 			announcedClose = true
 		}
 	}
-	if got.Framing == "eof" || (got.Proto == "HTTP/1.0" && !nominatedKeepAlive(gotBy)) {
+	if got.Framing == "eof" {
 		announcedClose = true
 	}
-	return announcedClose
+	if !announcedClose && got.Proto == "HTTP/1.0" && !nominatedKeepAlive(gotBy) {
+		// an HTTP/1.0 status line without keep-alive and with a self-delimited body: the client will not reuse the
+		// connection, and nothing in the property obliges the proxy to close it first - either is accepted
+		return closeEither
+	}
+	if announcedClose {
+		return closeYes
+	}
+	return closeNo
 }
+
+const (
+	closeNo = iota
+	closeYes
+	closeEither
+)
 
 func nominatedKeepAlive(gotBy map[string][]string) bool {
 	for _, v := range gotBy["connection"] {
@@ -522,8 +546,8 @@ func scenario(x *explore.X, incremental bool) {
 			break
 		}
 		announced := expectResponse(x, e, rs.Msgs[i], cfgk == 1)
-		if announced != clientEOF() {
-			x.Failf("close-announcement", "exchange %d: response announced close=%v but connection closed=%v\n  client got head: %q", i+1, announced, clientEOF(), world.Clip(rs.Msgs[i].Raw[:rs.Msgs[i].HeadLen]))
+		if announced != closeEither && (announced == closeYes) != clientEOF() {
+			x.Failf("close-announcement", "exchange %d: response announced close=%v but connection closed=%v\n  client got head: %q", i+1, announced == closeYes, clientEOF(), world.Clip(rs.Msgs[i].Raw[:rs.Msgs[i].HeadLen]))
 		}
 		wantClose := e.connOpt == "close" || (e.version == "HTTP/1.0" && e.connOpt != "keep-alive")
 		if wantClose && !clientEOF() {
@@ -748,7 +772,7 @@ func twoConnections(x *explore.X) {
 
 func TestC02(t *testing.T) {
 	s := explore.NewSuite(t, "C02", "exploration",
-		"sequences of 1-3 exchanges on one client connection; each exchange = request method(3) x client version(2) x client Connection option(3) x origin status(10, incl. status lines without reason phrase and without the space after the code) x header shape(8) x framing(CL, chunked, EOF-delimited 1.1, EOF-delimited 1.0) x size(10) x chunking/trailers(5) x content(plain, gzip solicited by the proxy, gzip solicited by the client, event stream) x origin write segmentation(8) x configuration(TCP server, TestingHTTPHandler, MITM) x configured --response-header rule set(6: none, append, remove, prefix removal, rename, set-empty+remove); all combinations with at most D deviations (D=3 quick, 4 thorough) from the default sequence are executed and the client's byte stream is parsed by the independent parser and compared message by message with expectResponse; plus (two-connections) the full product framing x gzip x size x mode (optionally after an earlier download that its client aborted mid-body) of two connections of which one client stops reading in the middle of a 70000-byte response while the other performs a complete exchange, both compared exactly; plus the full product of the incremental-delivery scenario (stream kind x event size x events x client version x configuration); non-trivial = at least one response was compared")
+		"sequences of 1-3 exchanges on one client connection; each exchange = request method(3) x client version(2) x client Connection option(3) x origin status(10, incl. status lines without reason phrase and without the space after the code) x header shape(8) x framing(CL, chunked, EOF-delimited 1.1, EOF-delimited 1.0, CL from a keep-alive HTTP/1.0 origin) x size(10) x chunking/trailers(5) x content(plain, gzip solicited by the proxy, gzip solicited by the client, event stream) x origin write segmentation(8) x configuration(TCP server, TestingHTTPHandler, MITM) x configured --response-header rule set(6: none, append, remove, prefix removal, rename, set-empty+remove); all combinations with at most D deviations (D=3 quick, 4 thorough) from the default sequence are executed and the client's byte stream is parsed by the independent parser and compared message by message with expectResponse; plus (two-connections) the full product framing x gzip x size x mode (optionally after an earlier download that its client aborted mid-body) of two connections of which one client stops reading in the middle of a 70000-byte response while the other performs a complete exchange, both compared exactly; plus the full product of the incremental-delivery scenario (stream kind x event size x events x client version x configuration); non-trivial = at least one response was compared")
 	s.Assume = []string{"simnet models TCP", "httpwire is trusted", "compress/gzip is used to build and check gzip bodies"}
 	s.Add(explore.Scenario{Name: "exchanges", Remote: true, MaxDev: map[string]int{"quick": 3, "thorough": 4},
 		Run: func(x *explore.X) { world.Run(t, x, func() { scenario(x, false) }) }})
